@@ -101,6 +101,12 @@ fn value_refs() {
                         fail("C02", "M-value-changed-under-a-held-mutable-reference", format!("wrote {:?}, read {:?}", [i + 20; 4], seen));
                     }
                     r.write([i; 4]);
+                } else if let Some(r) = c.get_mut(&(7 + 256)) {
+                    // ... and of the mutable reference
+                    let v = if i % 2 == 0 { r.read() } else { r.clone_inner() };
+                    if v.iter().any(|x| *x != v[0]) {
+                        fail("C02", "M-torn-value", format!("get_mut(263) read {:?}", v));
+                    }
                 }
             }
         })
@@ -115,9 +121,14 @@ fn value_refs() {
         })
     };
     gate.pass();
-    for _ in 0..6 {
+    for j in 0..6 {
         if let Some(r) = c.get(&7) {
-            let v = *r.value();
+            // every spelling of "give me the value": each must copy it while the shard is locked
+            let v = match j % 3 {
+                0 => *r.value(),
+                1 => r.read(),
+                _ => *r.as_ref(),
+            };
             if v.iter().any(|x| *x != v[0]) {
                 fail("C02", "M-torn-value", format!("get(7) returned {:?}", v));
             }
